@@ -150,6 +150,9 @@ func (m *Monitor) OnBegin(s *apphist.Sim, a *apphist.BeginArgs, preD, postD stri
 				period := i64(Param(pre.Active, PLazyReward))
 				for _, k := range d.Stakes {
 					f, ok := post.Frozen[k.Hash]
+					if ok && f.Owner == k.Owner && f.Refund != a.H+period {
+						m.fail(s, "C12", "refund-height", fmt.Sprintf("stake %s force-released at block %d under unbonding period %d must stay locked until block %d, recorded refund height %d", k.Hash, a.H, period, a.H+period, f.Refund))
+					}
 					if !ok || f.Power != k.Power || f.Owner != k.Owner || f.Refund != a.H+period {
 						m.fail(s, "C14", "jail-effect", fmt.Sprintf("jailed delegatee %s: stake %s (power %d) not moved to unbonding with refund height %d (found %+v)", addr, k.Hash, k.Power, a.H+period, f))
 					}
@@ -391,6 +394,7 @@ func (m *Monitor) OnDeliver(s *apphist.Sim, bz []byte, preD, postD string, o app
 		// the EVM may burn (self-destruct to self); everything else must be conserved
 		burn := new(big.Int).Sub(expTotal, dTotal)
 		if burn.Sign() < 0 {
+			m.fail(s, "C16", "contract-charge", fmt.Sprintf("contract tx %s: all balances together changed by %s, a charge of exactly gas used x price = %s was due (somebody was credited inside the EVM or the sender under-charged)", hash, dTotal, fee))
 			m.fail(s, "C02", "evm-creates-value", fmt.Sprintf("contract tx %s increased the total value by %s", hash, new(big.Int).Neg(burn)))
 		} else if burn.Sign() > 0 {
 			if !m.burnOK {
